@@ -297,6 +297,52 @@ Definition sc_set (c : scache) (script sha : string) : scache := aset String.eqb
 Definition sc_run (c : scache) (h : list (string * string)) : scache :=
   fold_left (fun m p => sc_set m (fst p) (snd p)) h c.
 
+(* ---- redis.go New / WithCluster / WithPass / WithTLS, config.go Config.NewRedis ---- *)
+Inductive rtype := TNode | TCluster.
+Record winst := mkw { w_addr : string; w_type : rtype; w_pass : string; w_tls : bool }.
+Inductive wopt := OCluster | OPass (p : string) | OTLS.
+
+Definition apply_opt (r : winst) (o : wopt) : winst :=
+  match o with
+  | OCluster => mkw (w_addr r) TCluster (w_pass r) (w_tls r)          (* redis.go WithCluster *)
+  | OPass p => mkw (w_addr r) (w_type r) p (w_tls r)                  (* redis.go WithPass *)
+  | OTLS => mkw (w_addr r) (w_type r) (w_pass r) true                 (* redis.go WithTLS *)
+  end.
+
+Definition new_w (addr : string) (opts : list wopt) : winst :=         (* redis.go New *)
+  fold_left apply_opt opts (mkw addr TNode "" false).
+
+Record rconfig := mkrconfig { c_host : string; c_type : string; c_pass : string; c_tls : bool }.
+
+Definition new_redis (c : rconfig) : winst :=                          (* config.go NewRedis *)
+  new_w (c_host c)
+        ((if String.eqb (c_type c) "cluster" then [OCluster] else []) ++
+         (if Nat.ltb 0 (String.length (c_pass c)) then [OPass (c_pass c)] else []) ++
+         (if c_tls c then [OTLS] else [])).
+
+(* what the go-redis client of the instance is configured with (clientmanager.go / clustermanager.go):
+   kind of client, address, password, TLS *)
+Definition dial_config (w : winst) : rtype * string * string * bool := (w_type w, w_addr w, w_pass w, w_tls w).
+
+(* ---- blockingnode.go: CreateBlockingNode / Close.  Clients are identified by a serial number. ---- *)
+Inductive bop := BGet (addr : string) | BCreate | BClose (id : nat).
+Record bst := mkbst { bs_next : nat;
+                      bs_mgr : list (string * nat);     (* pooled clients of the manager, by address *)
+                      bs_nodes : list nat;              (* blocking nodes handed out *)
+                      bs_closed : list nat }.           (* clients that were closed *)
+Definition bstep (s : bst) (o : bop) : bst :=
+  match o with
+  | BGet a => match alookup String.eqb a (bs_mgr s) with
+              | Some _ => s
+              | None => mkbst (S (bs_next s)) ((a, bs_next s) :: bs_mgr s) (bs_nodes s) (bs_closed s)
+              end
+  | BCreate => mkbst (S (bs_next s)) (bs_mgr s) (bs_next s :: bs_nodes s) (bs_closed s)    (* a NEW client *)
+  | BClose id => if existsb (Nat.eqb id) (bs_nodes s)
+                 then mkbst (bs_next s) (bs_mgr s) (bs_nodes s) (id :: bs_closed s)         (* closes that client only *)
+                 else s
+  end.
+Definition brun (h : list bop) : bst := fold_left bstep h (mkbst 0 [] [] []).
+
 Arguments upd {N} cl i n.
 Arguments kv_step {N K A R} node_run owner cl k a.
 Arguments kv_each {N K A R} node_run owner cl ks a.
